@@ -76,8 +76,15 @@ StateViol(ev) ==
                                                       /\ pool[id].held = b.held))
   \cup Chk("C09_OutputsMonotone", id \in DOMAIN pool => pool[id].outs \subseteq b.outs)
   \cup Chk("C09_Lifecycle",
-           (b.st # t.st /\ ~ev.forced /\ ~Opt.manual)
-              => IF env.restarted THEN Lifecycle(b.st, t.st, inRetry) ELSE LifecycleStrict(b.st, t.st, inRetry))
+           (b.st # t.st /\ ~ev.forced /\ ~Opt.manual /\ ~(Opt.faults /\ "_submit_task_job_callback" \in ev.cx)
+            /\ id \notin env.tainted)
+              => IF env.restarted \/ Opt.faults THEN Lifecycle(b.st, t.st, inRetry) ELSE LifecycleStrict(b.st, t.st, inRetry))
+  \* recorded separately (known finding): the result of a jobs-submit command that arrives after the task has
+  \* moved on to a later submit number is applied to the current job (the callback looks the task up by its
+  \* current submit number)
+  \cup Chk("C09_Lifecycle_StaleSubmitCallback",
+           (b.st # t.st /\ ~ev.forced /\ ~Opt.manual /\ Opt.faults /\ "_submit_task_job_callback" \in ev.cx)
+              => Lifecycle(b.st, t.st, inRetry))
   \cup Chk("C09_OutputsMonotone", b.outs \subseteq t.outs)
   \cup Chk("C04_ReleaseWithinLimit",
            released => Pt(id) <= RunaheadLimit(W, Min(PoolPoints), SpecMaxFut, StopPt))
@@ -104,7 +111,12 @@ PrepareViol(ev) ==
   \cup Chk("C02_AtMostOncePerFlow", (auto /\ h.n > 0 /\ h.flows \cap t.flows # {}) => h.retry)
   \cup Chk("C02_RetryBound", auto => h.n + 1 <= bound)
   \cup Chk("C06_HeldNeverPrepared", (id \in DOMAIN pool /\ pool[id].held) => ev.manual)
-  \cup Chk("C07_NoSubmitBeyondStop", ev.manual \/ Opt.manual \/ p <= StopPt)
+  \cup Chk("C07_NoSubmitBeyondStop", ev.manual \/ Opt.manual \/ p <= StopPt \/ (h.n > 0 /\ h.retry))
+  \cup Chk("C43_NoSubmitBeyondStopPoint", ev.manual \/ Opt.manual \/ p <= StopPt \/ (h.n > 0 /\ h.retry))
+  \* recorded separately (known finding): the automatic retry of a task that was already active when the
+  \* stop point took effect is submitted although it lies beyond the stop point
+  \cup Chk("C07_NoSubmitBeyondStop_RetryOfActiveTask", ~(~ev.manual /\ ~Opt.manual /\ p > StopPt /\ h.n > 0 /\ h.retry))
+  \cup Chk("C43_NoSubmitBeyondStopPoint_RetryOfActiveTask", ~(~ev.manual /\ ~Opt.manual /\ p > StopPt /\ h.n > 0 /\ h.retry))
   \cup Chk("C31_NoOverlap", (nm \in W.seqtasks /\ auto) => OthersActive(id) = {})
   \cup Chk("C31_AfterPreviousSucceeded", (nm \in W.seqtasks /\ auto) => SeqPrereqSat(W, nm, p, done))
   \cup Chk("C46_NothingBeforeStart", auto => p >= W.start)
@@ -115,6 +127,8 @@ PrepareCov(ev) ==
   \cup Cov("C01_SubmitWithPrereqs", Deps(W, nm, Pt(id)) # {})
   \cup Cov("C02_AtMostOncePerFlow", h.n > 0)
   \cup Cov("C31_NoOverlap", nm \in W.seqtasks)
+  \cup Cov("C43_NoSubmitBeyondStopPoint", env.stop # NoPoint)
+  \cup Cov("C46_NothingBeforeStart", W.start > W.icp)
   \cup Cov("C31_AfterPreviousSucceeded", nm \in W.seqtasks /\ PrevPoint(W, nm, Pt(id)) # NoPoint)
 
 \* msg: TaskEventsManager.process_message returned
@@ -199,6 +213,9 @@ LoopEndViol(ev) ==
                                           /\ s.queued = pool[i].queued /\ s.held = pool[i].held /\ s.flows = pool[i].flows)
   \cup Chk("C04_MaxFutFromPool",
            ev.maxfut <= (LET S == {TaskMaxFut(W, Name(i)) : i \in SyncIds(ev)} IN IF S = {} THEN 0 ELSE Max(S)))
+  \cup Chk("C45_AllInstancesSatisfied",
+           \A i \in SyncIds(ev) : \A L \in Deps(W, Name(i), Pt(i)) : \A a \in Atoms(L.lhs) :
+              (a.abs /\ AtomKey(W, a, Pt(i)) \in done) => AtomKey(W, a, Pt(i)) \in SyncRec(ev, i).sat)
   \cup Chk("C11_RetainedOnlyIfIncomplete",
            ~Opt.manual => \A i \in SyncIds(ev) : SyncRec(ev, i).st \in FinalStatuses => ~Complete(W, Name(i), SyncRec(ev, i).outs))
   \cup Chk("C09_ImpliedOutputs",
@@ -208,6 +225,12 @@ LoopEndCov(ev) ==
      {"C26_CacheIsTruth", "C26_NoEmptyBucket"}
   \cup Cov("C26_DbPoolMatches", ev.hasdb /\ ev.pool # <<>>)
   \cup Cov("C11_RetainedOnlyIfIncomplete", \E i \in SyncIds(ev) : SyncRec(ev, i).st \in FinalStatuses)
+  \cup Cov("C45_AllInstancesSatisfied",
+           \E i \in SyncIds(ev) : \E L \in Deps(W, Name(i), Pt(i)) : \E a \in Atoms(L.lhs) :
+              a.abs /\ AtomKey(W, a, Pt(i)) \in done)
+  \cup Cov("C45_AfterRestart",
+           env.restarted /\ \E i \in SyncIds(ev) : \E L \in Deps(W, Name(i), Pt(i)) : \E a \in Atoms(L.lhs) :
+              a.abs /\ AtomKey(W, a, Pt(i)) \in done)
 
 \* boot after a stop: what was restored from the database
 RestoredTask(b) == [st |-> IF b.st = "preparing" THEN "waiting" ELSE b.st,
@@ -267,7 +290,7 @@ CanRunAtSync(ev, i) ==
      \/ (s.st = "waiting" /\ ~s.rh /\ s.preok)
 PartiallySat(ev, i) == LET s == SyncRec(ev, i) IN s.st = "waiting" /\ s.sat # {} /\ ~s.preok /\ Pt(i) <= StopPt
 SetStopViol(ev) ==
-  ev.mode = "AUTO" =>
+  (ev.mode = "AUTO" /\ ~env.hadStopTask) =>
      \A i \in SyncIds(ev) : LET s == SyncRec(ev, i) IN
         /\ s.st \notin ActiveStatuses
         /\ ~(s.st = "waiting" /\ ~s.rh /\ s.preok /\ ~s.held /\ s.xok /\ Pt(i) <= StopPt)
@@ -299,6 +322,7 @@ NoStuck == \A i \in W.tasks \X AllPoints(W) :
 LostForGood == env.lostAtCrash \ env.spawnedSinceBoot
 EndViol(ev) ==
   LET clean == ~Opt.manual /\ ~env.incomplete /\ ev.reason = "AUTOMATIC" /\ ~W.hassuicide /\ env.downkind # "crash"
+               /\ ~Opt.stopreq /\ ~Opt.stopmid
       completable == ~Opt.manual /\ ~env.incomplete /\ Opt.allcomplete /\ ~Opt.stopreq /\ ~W.hassuicide /\ NoStuck IN
      Chk("C01_ExactClosure",
          clean => ((Launched \subseteq Expected /\ (Expected \ Launched) \subseteq BeyondStopAlt)
@@ -309,6 +333,15 @@ EndViol(ev) ==
   \cup Chk("C01_ExactClosure_BeyondStopAlternative", clean => (Expected \ Launched) \cap BeyondStopAlt = {})
   \cup Chk("C01_ShutsDown", completable => ev.reason = "AUTOMATIC")
   \cup Chk("C04_NoRunaheadDeadlock", completable => ev.reason = "AUTOMATIC")
+  \cup Chk("C43_ShutdownWhenNothingLeft", (completable /\ env.stop # NoPoint) => ev.reason = "AUTOMATIC")
+  \* C10: whatever the interleaving of messages, duplicates and polls, what the scheduler finally believes
+  \* about an instance agrees with what its jobs really did
+  \cup Chk("C10_FinalMatchesJob",
+           (ev.reason \in {"AUTOMATIC", "stalled", "quiescent"} /\ ~Opt.manual /\ env.downkind # "crash") =>
+              /\ \A d \in done : d[3] = "succeeded" => \E j \in env.succeeded : j[1] = d[1] /\ j[2] = d[2]
+              /\ \A d \in done : d[3] = "failed" => \E j \in env.failedjobs : j[1] = d[1] /\ j[2] = d[2]
+              /\ \A j \in env.succeeded : (\A k \in env.jobs : (k[1] = j[1] /\ k[2] = j[2]) => k[3] <= j[3])
+                                             => <<j[1], j[2], "succeeded">> \in done)
   \cup Chk("C19_SameOutcome", (Opt.hastwin /\ env.downkind = "stop") =>
               ((Launched = Opt.twin.launched /\ done = Opt.twin.done /\ ev.reason = Opt.twin.reason)
                  \/ PrintT(<<"DIAG", tid, "twin: launched-only-here", Launched \ Opt.twin.launched, "only-in-twin",
@@ -336,7 +369,10 @@ EndViol(ev) ==
   \cup Chk("C20_SameEnd", (Opt.hastwin /\ env.downkind = "crash" /\ ~env.earlyCrash
                              /\ ~env.hadDup /\ LostForGood = {}) => ev.reason = Opt.twin.reason)
   \cup Chk("C20_NothingExtra", (Opt.hastwin /\ env.downkind = "crash") => Launched \subseteq Opt.twin.launched)
-EndCov(ev) == Cov("C19_SameOutcome", Opt.hastwin /\ env.downkind = "stop")
+EndCov(ev) == Cov("C10_FinalMatchesJob", env.succeeded # {} /\ ev.reason \in {"AUTOMATIC", "stalled", "quiescent"})
+              \cup Cov("C10_FinalMatchesJobUnderFaults", Opt.faults /\ env.succeeded # {})
+              \cup Cov("C43_ShutdownWhenNothingLeft", env.stop # NoPoint /\ Opt.allcomplete /\ ~Opt.stopreq)
+              \cup Cov("C19_SameOutcome", Opt.hastwin /\ env.downkind = "stop")
               \cup Cov("C20_NoLoss", Opt.hastwin /\ env.downkind = "crash")
               \cup Cov("C01_ExactClosure", ~Opt.manual /\ ~env.incomplete /\ ev.reason = "AUTOMATIC")
               \cup Cov("C01_ShutsDown", ~Opt.manual /\ ~env.incomplete /\ Opt.allcomplete /\ ~Opt.stopreq /\ ~W.hassuicide /\ NoStuck)
@@ -351,7 +387,7 @@ NextPool(ev) ==
     [] ev.e = "remove" -> Del(pool, ev.t.id)
     [] ev.e \in {"state", "msg"} -> IF ev.t.id \in DOMAIN pool THEN Upd(pool, ev.t.id, ev.t) ELSE pool
     [] ev.e = "prepare" -> IF ev.t.id \in DOMAIN pool THEN Upd(pool, ev.t.id, ev.t) ELSE pool
-    [] ev.e \in {"loop_end", "boot", "restored"} -> [i \in SyncIds(ev) |-> SyncRec(ev, i)]   \* re-synchronise
+    [] ev.e \in {"loop_end", "boot", "restored", "cmd_done"} -> [i \in SyncIds(ev) |-> SyncRec(ev, i)]   \* re-synchronise
     [] ev.e \in {"sched_stop", "crash"} -> <<>>          \* the process is gone; the pool is rebuilt from the DB
     [] OTHER -> pool
 
@@ -382,7 +418,13 @@ NextEnv(ev) ==
     [] ev.e = "env_launch" -> [env EXCEPT !.jobs = @ \cup {ev.job}, !.hadDup = @ \/ ev.job \in env.jobs,
                                           !.jobsSinceBoot = @ \cup {ev.job}]
     [] ev.e = "spawn" -> [env EXCEPT !.spawnedSinceBoot = @ \cup {ev.t.id}]
+    [] ev.e = "state" /\ Opt.faults /\ "_submit_task_job_callback" \in ev.cx /\ ev.b.st # ev.t.st
+          /\ ~Lifecycle(ev.b.st, ev.t.st, "_retry_task" \in ev.cx) ->
+         [env EXCEPT !.tainted = @ \cup {ev.t.id}]    \* state corrupted by a stale submit callback (known finding)
     [] ev.e = "env_job" /\ ev.step = "succeeded" -> [env EXCEPT !.succeeded = @ \cup {ev.job}]
+    [] ev.e = "env_job" /\ ev.step = "failed" -> [env EXCEPT !.failedjobs = @ \cup {ev.job}]
+    [] ev.e = "cmd_done" -> [env EXCEPT !.stop = ev.stop_point, !.tohold = ev.tasks_to_hold, !.holdpt = ev.hold_point,
+                                        !.hadStopTask = @ \/ ev.stop_task # "none"]
     [] ev.e \in {"loop_end", "boot"} ->
          [env EXCEPT !.stop = ev.stop_point, !.tohold = ev.tasks_to_hold, !.holdpt = ev.hold_point,
                      !.flowctr = ev.flow_counter,
@@ -436,7 +478,7 @@ Init == /\ tid \in DOMAIN Runs
         /\ done = {}
         /\ hist = <<>>
         /\ env = [stop |-> NoPoint, tohold |-> {}, holdpt |-> NoPoint, restarted |-> FALSE, incomplete |-> FALSE,
-                  prestop |-> <<>>, prescal |-> <<>>, downkind |-> "none", committed |-> {}, poolcommitted |-> FALSE, lostAtCrash |-> {}, earlyCrash |-> FALSE, hadDup |-> FALSE, committedAtCrash |-> {}, jobsSinceBoot |-> {}, spawnedSinceBoot |-> {}, jobs |-> {}, succeeded |-> {}, flowctr |-> 0]
+                  prestop |-> <<>>, prescal |-> <<>>, downkind |-> "none", committed |-> {}, poolcommitted |-> FALSE, lostAtCrash |-> {}, earlyCrash |-> FALSE, hadStopTask |-> FALSE, hadDup |-> FALSE, committedAtCrash |-> {}, jobsSinceBoot |-> {}, spawnedSinceBoot |-> {}, jobs |-> {}, succeeded |-> {}, failedjobs |-> {}, tainted |-> {}, flowctr |-> 0]
         /\ viol = {}
         /\ cov = {}
 
